@@ -240,12 +240,16 @@ func newMesh(r *ev.Run, fam string, seed int64, members int, desc map[string]int
 		}
 		mb.n.member.MemberId = uint64(i + 1)
 		mb.sy = syncer.NewRegionSyncer(mb.n)
-		mb.gs = grpc.NewServer()
-		pdpb.RegisterPDServer(mb.gs, &meshSvc{m: m, mb: mb})
-		go mb.gs.Serve(lis)
+		m.serve(mb, lis)
 		m.ms = append(m.ms, mb)
 	}
 	return m, nil
+}
+
+func (m *mesh) serve(mb *member, lis net.Listener) {
+	mb.gs = grpc.NewServer()
+	pdpb.RegisterPDServer(mb.gs, &meshSvc{m: m, mb: mb})
+	go mb.gs.Serve(lis)
 }
 
 func (m *mesh) close() {
@@ -1150,6 +1154,119 @@ func famRestart(r *ev.Run, seed int64, n int) *mesh {
 	return m
 }
 
+// famLeaderRestart: the follower, fully synced at index N, stays alive; the leader process restarts
+// on the same region storage and comes up at its persisted index P (N-P = d, the index is persisted
+// every 100 records), i.e. it re-uses index numbers the follower already holds for other records.
+// The follower reconnects (its index is outside the new log: nothing is sent, the stream is bound)
+// and the first thing it receives is ONE batch of `batch` regions (the notifier is filled before
+// RunServer starts), unless heal: then a one-region batch comes first.
+func famLeaderRestart(r *ev.Run, seed int64, d, batch int, heal bool) *mesh {
+	m, err := newMesh(r, "leader-restart", seed, 2, map[string]interface{}{"variant": fmt.Sprintf("N-P=%d batch=%d small-batch-first=%v", d, batch, heal)})
+	if err != nil {
+		r.Inconclusive("mesh set-up: %v", err)
+		return nil
+	}
+	defer m.guard()
+	a, b := m.ms[0], m.ms[1]
+	a.sy.VerifHistory().ResetWithIndex(30000)
+	m.lead(a)
+	m.populate(40, false)
+	m.startSync(b)
+	// the checkpoint adds 5 sentinel records: records since the reset = x + 5 = 100*q + d
+	x := 100 + d - 5
+	if x < 100 {
+		x += 100
+	}
+	k := m.push(x, true)
+	if !m.waitRecorded(k) || !m.checkpoint("before the leader restarts", b) {
+		return m
+	}
+	if !m.waitFor("B to hold the leader's index", func() bool { return b.sy.VerifHistory().NextIndex() == a.sy.VerifHistory().NextIndex() }) {
+		return m
+	}
+	n := b.sy.VerifHistory().NextIndex()
+	// leader restart: process gone (RunServer, gRPC server, cache), same region storage
+	m.stopSync(b)
+	close(a.quit)
+	a.quit = nil
+	a.gs.Stop()
+	old := a.n
+	old.cancel()
+	old.rs.Close()
+	lis, err := net.Listen("tcp", "127.0.0.1:0")
+	if err != nil {
+		m.fail("listen: %v", err)
+		return m
+	}
+	a.addr = "http://" + lis.Addr().String()
+	nn, err := reopenNode(old)
+	if err != nil {
+		lis.Close()
+		m.fail("reopen the leader's region storage: %v", err)
+		return m
+	}
+	nn.member.ClientUrls, nn.member.PeerUrls = []string{a.addr}, []string{a.addr}
+	a.n = nn
+	a.sy = syncer.NewRegionSyncer(nn)
+	m.serve(a, lis)
+	p := a.sy.VerifHistory().NextIndex()
+	if n-p != uint64(d) {
+		m.fail("harness expected the restarted leader %d behind the follower, it is %d behind (follower %d, leader %d)", d, n-p, n, p)
+		return m
+	}
+	m.r.Count("leader_restarts_with_lower_index", 1)
+	// leader again, RunServer not running yet
+	m.ld = a
+	a.exp = map[uint64]*expect{}
+	a.notifier = make(chan *core.RegionInfo, 10000)
+	a.quit = make(chan struct{})
+	m.termBase, m.termPush = p, 0
+	m.r.Count("mesh_terms", 1)
+	m.startSync(b)
+	if !m.waitFor("the restarted leader to answer B's request", func() bool { return m.answered(b) }) {
+		return m
+	}
+	started := false
+	if heal {
+		started = true
+		go a.sy.RunServer(a.notifier, a.quit)
+		if !m.waitRecorded(m.push(1, true)) {
+			return m
+		}
+	}
+	k = m.push(batch, true) // all in the channel before RunServer looks at it: one message
+	if !started {
+		go a.sy.RunServer(a.notifier, a.quit)
+	}
+	if m.waitRecorded(k) {
+		m.checkpoint("after the first batch from the restarted leader", b)
+	}
+	// evidence: was the batch really one message starting at the restarted leader's index?
+	m.mu.Lock()
+	skip := 0
+	if heal {
+		skip = 1
+	}
+	for _, c := range m.caps {
+		if c.st == b.cur && c.err == nil {
+			if msg := c.decode(); msg != nil && len(msg.GetRegions()) > 0 {
+				if skip > 0 {
+					skip--
+					continue
+				}
+				if len(msg.GetRegions()) == batch {
+					m.r.Count("leader_restart_first_batch_in_one_message", 1)
+				} else {
+					m.r.Count("leader_restart_first_batch_split", 1)
+				}
+				break
+			}
+		}
+	}
+	m.mu.Unlock()
+	return m
+}
+
 func reopenNode(o *node) (*node, error) {
 	n, err := newNodeAt(o.name, o.clusterID, o.member.ClientUrls[0], o.dir)
 	if err != nil {
@@ -1175,6 +1292,10 @@ func meshPhase(r *ev.Run, rng *rand.Rand) {
 			func() *mesh { return famSaveFailures(r, s7) },
 			func() *mesh { return famRestart(r, s8, 250) },
 		}
+		for _, c := range [][3]int{{37, 38, 0}, {99, 101, 0}, {1, 2, 0}, {50, 50, 0}, {37, 101, 1}} {
+			c, sd := c, s()
+			jobs = append(jobs, func() *mesh { return famLeaderRestart(r, sd, c[0], c[1], c[2] == 1) })
+		}
 	} else {
 		for _, n := range []int{101, 250, 1000, 2500} {
 			for _, br := range []string{"full", "incr"} {
@@ -1193,6 +1314,19 @@ func meshPhase(r *ev.Run, rng *rand.Rand) {
 				func() *mesh { return famSendErrors(r, sd3) },
 				func() *mesh { return famSaveFailures(r, sd4) },
 				func() *mesh { return famRestart(r, sd5, 99+i*101) })
+		}
+	}
+	if r.Thorough() {
+		for _, d := range []int{1, 37, 50, 99} {
+			for _, bsz := range []int{d - 1, d, d + 1, 101} {
+				for _, heal := range []bool{false, true} {
+					if bsz < 1 || (heal && bsz != d+1) {
+						continue
+					}
+					d, bsz, heal, sd := d, bsz, heal, s()
+					jobs = append(jobs, func() *mesh { return famLeaderRestart(r, sd, d, bsz, heal) })
+				}
+			}
 		}
 	}
 	var tear sync.WaitGroup
